@@ -32,6 +32,7 @@ RULE = (
     "liquid.Template(source, **options) whose option sets differ in one or two of autoescape / undefined / tolerance / strict_filters / template_comments / extra / "
     "delimiters (12 sets exceed the implicit-environment memo), all created before any is rendered or interleaved, judged the same way. Non-trivial = rewrite with >= 1 tag and non-empty "
     "output, or history with >= 2 environments; distinct by content."
+    " Rounds 5-6 added enumerated families: closing and opening delimiters of every width 1-3 per markup kind against whitespace-control bodies; delimiters holding hyphens."
 )
 REQUIRED = [
     ("liquid/lex.py", "compile_liquid_rules"),
